@@ -50,11 +50,19 @@ def tyOf (j : Json) : Option Ty := do
 def optTy (j : Json) (k : String) : Option (Option Ty) :=
   if isNull j k then some none else (tyOf (getObj j k)).map some
 
+def extraOf (j : Json) (k : String) : List (String × String) :=
+  (getArr j k).filterMap (fun p => match asStrList p with
+    | [a, b] => some (a, b)
+    | _ => none)
+
+def extraJ (e : List (String × String)) : Json :=
+  Json.arr (e.map (fun kv => strs [kv.1, kv.2])).toArray
+
 def defValOf (j : Json) : Option DefVal :=
   match getStr j "kind" with
   | some "plain" => (getStr j "text").map .plain
   | some "computed" => (getStr j "text").map .computed
-  | some "identity" => some (.identity (getBoolD j "always") (getNat j "start"))
+  | some "identity" => some (.identity (getBoolD j "always") (getNat j "start") (extraOf j "extra"))
   | _ => none
 
 def triDef (j : Json) (k : String) : Option (Tri DefVal) :=
@@ -117,10 +125,10 @@ def stmtToJson : Stmt → Json
   | .mssqlAlter t c ty n => stmtJ "mssqlAlter" t [("col", c), ("ty", ty), ("n", optB n)]
   | .mssqlAddDefault t c d => stmtJ "mssqlAddDefault" t [("col", c), ("d", d)]
   | .mssqlDropDefault t o c => stmtJ "mssqlDropDefault" t [("col", c), ("objSchema", optS o.schema), ("objTable", o.table)]
-  | .identityAdd t c a s => stmtJ "identityAdd" t [("col", c), ("always", a), ("start", optN s)]
+  | .identityAdd t c a s e => stmtJ "identityAdd" t [("col", c), ("always", a), ("start", optN s), ("extra", extraJ e)]
   | .identityDrop t c => stmtJ "identityDrop" t [("col", c)]
-  | .identityAlter t c a s => stmtJ "identityAlter" t [("col", c), ("always", optB a), ("start", optN s)]
-  | .identitySet t c a s => stmtJ "identitySet" t [("col", c), ("always", a), ("start", optN s)]
+  | .identityAlter t c a s e => stmtJ "identityAlter" t [("col", c), ("always", optB a), ("start", optN s), ("extra", extraJ e)]
+  | .identitySet t c a s e => stmtJ "identitySet" t [("col", c), ("always", a), ("start", optN s), ("extra", extraJ e)]
   | .dropConstraint t n => stmtJ "dropConstraint" t [("name", n)]
   | .addConstraint t n c => stmtJ "addConstraint" t [("name", optS n), ("col", c)]
 
@@ -149,10 +157,10 @@ def stmtOf (j : Json) : Option Stmt := do
   | "mssqlAlter" => (getStr j "ty").map (fun ty => .mssqlAlter t col ty (getBool j "n"))
   | "mssqlAddDefault" => (getStr j "d").map (.mssqlAddDefault t col)
   | "mssqlDropDefault" => (getStr j "objTable").map (fun ot => .mssqlDropDefault t ⟨getStr j "objSchema", ot⟩ col)
-  | "identityAdd" => (getBool j "always").map (fun a => .identityAdd t col a (getNat j "start"))
+  | "identityAdd" => (getBool j "always").map (fun a => .identityAdd t col a (getNat j "start") (extraOf j "extra"))
   | "identityDrop" => some (.identityDrop t col)
-  | "identityAlter" => some (.identityAlter t col (getBool j "always") (getNat j "start"))
-  | "identitySet" => (getBool j "always").map (fun a => .identitySet t col a (getNat j "start"))
+  | "identityAlter" => some (.identityAlter t col (getBool j "always") (getNat j "start") (extraOf j "extra"))
+  | "identitySet" => (getBool j "always").map (fun a => .identitySet t col a (getNat j "start") (extraOf j "extra"))
   | "dropConstraint" => (getStr j "name").map (.dropConstraint t)
   | "addConstraint" => some (.addConstraint t (getStr j "name") col)
   | _ => none
@@ -175,7 +183,7 @@ def stateOf (j : Json) : Option ColState := do
 def defValToJson : DefVal → Json
   | .plain s => obj [("kind", "plain"), ("text", s)]
   | .computed s => obj [("kind", "computed"), ("text", s)]
-  | .identity a s => obj [("kind", "identity"), ("always", a), ("start", optN s)]
+  | .identity a s e => obj [("kind", "identity"), ("always", a), ("start", optN s), ("extra", extraJ e)]
 
 def stateToJson (s : ColState) : Json :=
   obj [("name", s.name), ("ty", s.ty), ("nullable", s.nullable),
